@@ -385,3 +385,66 @@ def gen_co(rng, count, tag, terms=("fe", "tfe", "col"), stacks=None, drop=0.015,
                 ops.append("d")
         out.append(f"{tag}{c} co:{stack}:{term} take={take} lim={lim} n={n} {';'.join(scripts)} | {' '.join(ops)}")
     return out
+
+
+def gen_mt(rng, count, tag):
+    """cases for mt-harness (real threads): every Pending answer is woken later from another thread; scripts always reach their end"""
+    out = []
+    for c in range(count):
+        comb = rng.choice(["join", "join", "race", "merge", "merge", "zip", "chain", "fgroup", "sgroup"])
+        cont = "vec" if comb in ("fgroup", "sgroup") else rng.choice(["vec", "array", "tuple"])
+        n = rng.randint(1, 8) if cont == "vec" else rng.randint(1, 5)
+        scs = []
+        for i in range(n):
+            if comb in ("join", "race", "fgroup"):
+                scs.append(",".join(["P"] * rng.choice([0, 0, 1, 1, 2, 3, 5]) + [f"R{100 + i}"]))
+            else:
+                st, k = [], 0
+                for _ in range(rng.randint(0, 4)):
+                    st += ["P"] * rng.choice([0, 0, 1, 2])
+                    st.append(f"I{100 * (i + 1) + k}")
+                    k += 1
+                st += ["P"] * rng.choice([0, 0, 1, 2]) + ["E"]
+                scs.append(",".join(st))
+        out.append(f"{tag}{c} {comb} {cont} n={n} {';'.join(scs)} | seed={rng.randrange(1, 1 << 30)}")
+    return out
+
+
+def mt_expect(case, line):
+    """-> None when the output line of mt-harness is what the scripts allow, else a description"""
+    hp = case.split(" | ")[0].split(" ")
+    comb, n = hp[1], int(hp[3][2:])
+    scs = [s.split(",") if s else [] for s in (hp[4].split(";") if len(hp) > 4 else [])]
+    toks = line.split(" ")
+    if len(toks) < 2 or toks[1] != "ok":
+        return "the wake-driven executor did not finish: " + " ".join(toks[1:8])
+    res = toks[2:]
+    vals = [[int(x[1:]) for x in sc if x[0] in "RI"] for sc in scs]
+
+    def parse(r):
+        return [int(x) for x in r[1:-1].split(",") if x]
+    if comb == "join":
+        want = [v[0] for v in vals]
+        return None if len(res) == 1 and parse(res[0]) == want else f"join returned {res}, expected {want}"
+    if comb == "race":
+        ok = len(res) == 1 and len(parse(res[0])) == 1 and parse(res[0])[0] in [v[0] for v in vals]
+        return None if ok else f"race returned {res}"
+    if res[-1:] != ["N"]:
+        return f"the stream did not end with None: {res[-3:]}"
+    got = [parse(r) for r in res[:-1]]
+    if comb == "zip":
+        rows = min(len(v) for v in vals)
+        # zip ends when any input ends: it may end before the shortest input's items are all matched only if that input ended
+        want = [[v[k] for v in vals] for k in range(rows)]
+        return None if got == want else f"zip yielded {got}, expected {want}"
+    flat = [x for r in got for x in r]
+    if comb == "chain":
+        want = [x for v in vals for x in v]
+        return None if flat == want else f"chain yielded {flat}, expected {want}"
+    # merge / groups: every item exactly once, each input's items in its own order
+    if sorted(flat) != sorted(x for v in vals for x in v):
+        return f"{comb} yielded {flat}, expected the items {vals} each exactly once"
+    for v in vals:
+        if [x for x in flat if x in v] != v:
+            return f"{comb} reordered the items of one input: {flat}"
+    return None
